@@ -8,6 +8,6 @@ trap 'rm -rf "$D"' EXIT
 mkdir -p "$D/repo"
 cp -r /repo/src /repo/include /repo/Makefile /repo/tests "$D/repo/"
 ( cd "$D/repo" && patch -p1 -s < "$P" )
-if [ -n "$MUT_SUITE" ]; then ( cd "$D/repo" && make check 2>&1 | grep -E "Tests " | sed 's/\x1b\[[0-9;]*m//g' ); fi
+if [ -n "$MUT_SUITE" ]; then ( cd "$D/repo" && timeout 120 make check 2>&1 | grep -E "Tests " | sed 's/\x1b\[[0-9;]*m//g' ); fi
 cd /verif
 CELLO_REPO="$D/repo" bin/check "$ID" "$TIER" 2>&1 | grep -E "VIOLATION|KNOWN|ERROR|held|VIOLATED|MODEL-DRIFT" | head -${MUT_LINES:-6}
